@@ -29,8 +29,8 @@ TEXT = {
  "C05": ("Bounded model checking of the real evaluator with bit-precise floats on 3- and 4-man families in which the side to move is a lone king: all squares, both perspectives, ply <= 10^6; mate / stalemate / non-terminal decided against an eight-step legality reference; mate-score monotonicity for all ply <= 10^6.",
          "DESIGN.md §4.3", "Assumes C09 (gated). compute_legal_moves inside the evaluator is replaced by a move set that is empty iff the reference finds no legal king step (discharged by C01 up to its filter-loop reading argument); native replay uses the real generator. Pointer checks off while /repo has no `unsafe`.",
          "SAT-based bounded model checking (Kani/CBMC) of Evaluator::evaluate over symbolic endgame families with IEEE-754 floats"),
- "C08": ("Bounded model checking of the real hasher: equality for every key table (1026 arbitrary keys) on a family with symbolic counters/ep; separation under seeded concrete key tables for pairs of positions that differ in side, one castling right, en-passant availability, or one move's worth of placement (families of kings + 3..4 men, all squares).",
-         "DESIGN.md §4.4", "Separation is decided under splitmix64 keys derived from VERIF_SEED (a failure must reproduce under a second independent table in native replay). Pairs differing in more than four placement incidences are excluded on purpose (GF(2) dependence).",
+ "C08": ("Bounded model checking of the real hasher under a seeded concrete key table: equal placement/side/rights/ep hash equal whatever the counters (family K+R vs k+p, all squares, symbolic rights, ep target and counters) and however reached (two real moves vs set up directly); pairs of positions that differ in side, one castling right, en-passant availability, or one move's worth of placement hash differently (families of kings + 3..4 men, all squares).",
+         "DESIGN.md §4.4", "Assumes C09 (gated; the repaired hash consults the pawn-attack table). Equality for *every* key table is read from the code, not decided (a symbolic table exhausts memory). Both halves are decided under splitmix64 keys derived from VERIF_SEED (a failure must reproduce under a second independent table in native replay). Pairs differing in more than four placement incidences are excluded on purpose (GF(2) dependence).",
          "SAT-based bounded model checking (Kani/CBMC) of ZobristHasher::with/hash on symbolic position pairs"),
  "C09": ("Exhaustive within the claim: for each of the 64 squares the real rook/bishop/queen lookups (mask, magic multiply, shift, bounds-checked index, lazy_static) are shown equal to loop-free ray geometry for all 2^64 occupancies; leapers for all squares and colours. Tables are produced by running the repository's own initialisers natively on every run and substituted for the initialisers.",
          "DESIGN.md §4.5", "Trusted: a native run of the input-free table initialisers yields what that code means; the reference geometry is self-tested against naive ray walking at setup.",
